@@ -53,12 +53,25 @@ theorem generator_generate_internal_sites : Facts.generator_generate_internal = 
     ⟨.fe_impl_set_b32_limit, 2, true, none⟩
   ] := by decide
 
-def all : List CallFact := Facts.generator_parse ++ Facts.pedersen_commitment_parse ++ Facts.pedersen_commit ++ Facts.pedersen_blind_sum ++ Facts.pedersen_blind_generator_blind_sum ++ Facts.generator_generate_internal
+/-- `secp256k1_generator_load`: its fallible-primitive call sites are exactly these, each with its result / overflow flag
+    consumed as listed. -/
+theorem generator_load_sites : Facts.generator_load = [
+    ⟨.fe_impl_set_b32_limit, 1, true, none⟩,
+    ⟨.fe_impl_set_b32_limit, 2, true, none⟩
+  ] := by decide
+
+/-- `secp256k1_pedersen_scalar_set_u64`: its fallible-primitive call sites are exactly these, each with its result / overflow flag
+    consumed as listed. -/
+theorem pedersen_scalar_set_u64_sites : Facts.pedersen_scalar_set_u64 = [
+    ⟨.scalar_set_b32, 1, false, none⟩
+  ] := by decide
+
+def all : List CallFact := Facts.generator_parse ++ Facts.pedersen_commitment_parse ++ Facts.pedersen_commit ++ Facts.pedersen_blind_sum ++ Facts.pedersen_blind_generator_blind_sum ++ Facts.generator_generate_internal ++ Facts.generator_load ++ Facts.pedersen_scalar_set_u64
 
 /-- No overflow flag written by a scalar decoding in these functions is ignored (overwritten or never read). -/
 theorem no_flag_dropped : ∀ f ∈ all, f.flag ≠ some false := by decide
 
 /-- non-vacuity: the regenerated fact lists are not empty -/
-example : all.length = 12 := by decide
+example : all.length = 15 := by decide
 
 end SecpZkp.Props.C08_guards
